@@ -130,7 +130,8 @@ theorem write_fresh_exact (c : Cfg) (crc : Bytes → Nat) (t0 : Table) (size : N
       have b2 : (size / t0.lss - 1) * t0.lss < two63 := by
         have : (size / t0.lss - 1) * t0.lss ≤ size / t0.lss * t0.lss := Nat.mul_le_mul_right _ (by omega)
         omega
-      have b3 : 2 * t0.lss < two63 := by rcases hl with h | h <;> simp [h, two63]
+      have b3 : 2 * t0.lss < two63 := by
+        simp only [two63]; rcases hl with h | h <;> omega
       have o1 : toI64 ((ti.lss : Int) * toI64 ((arraySector ti false : Nat) : Int)) =
           (((size / t0.lss - 1 - 16384 / t0.lss) * t0.lss : Nat) : Int) := by
         rw [ia2, il, toI64_of_lt _ (by
@@ -143,15 +144,68 @@ theorem write_fresh_exact (c : Cfg) (crc : Bytes → Nat) (t0 : Table) (size : N
           have : size / t0.lss - 1 ≤ (size / t0.lss - 1) * t0.lss := Nat.le_mul_of_pos_right _ hlpos
           omega), toI64_mul_nat _ _ b2]
       have o3 : toI64 ((ti.lss : Int) * toI64 ((arraySector ti true : Nat) : Int)) = ((2 * t0.lss : Nat) : Int) := by
-        rw [ia1, il, toI64_of_lt _ (by simp [two63]), toI64_mul_nat _ _ (by rw [Nat.mul_comm]; exact b3), Nat.mul_comm]
+        rw [ia1, il, toI64_of_lt _ (by simp only [two63]; omega), toI64_mul_nat _ _ (by rw [Nat.mul_comm]; exact b3), Nat.mul_comm]
       rw [o1, o2, o3] at hw
       split at hw
-      · rename_i hneg; omega
+      · rename_i hneg
+        rcases hneg with h | h | h <;> exact absurd h (Int.not_lt.2 (Int.natCast_nonneg _))
       · simp only [Res.ok.injEq, Prod.mk.injEq, Int.toNat_natCast] at hw
         obtain ⟨h1, h2⟩ := hw
-        refine ⟨arr, ps, rfl, hlen, h2.symm, ?_⟩
+        refine ⟨arr, ps, harr, hlen, h2.symm, ?_⟩
         rw [← h1]
         simp only [coreWrs, pmWrs, il]
-        cases c.pmbrLast <;> simp
+
+/-- the repaired Write (`minDiskCheck`) accepts a fresh table only on a disk of at least 2·p+3 sectors
+    (LBA 0, two headers, two arrays): the premise `hmin` of the theorems below is exactly what it demands -/
+theorem write_ok_min_size (c : Cfg) (crc : Bytes → Nat) (t0 : Table) (size : Nat) (ws : List Wr) (t : Table)
+    (hf : Fresh t0) (hl : t0.lss = 512 ∨ t0.lss = 4096) (hsz : size < two63) (hc : c.minDiskCheck = true)
+    (hw : write c crc t0 size = .ok (ws, t)) :
+    (2 * (16384 / t0.lss) + 3) * t0.lss ≤ size := by
+  have hlpos : 0 < t0.lss := by rcases hl with h | h <;> omega
+  apply Classical.byContradiction
+  intro hlt
+  have hq : size / t0.lss < 2 * (16384 / t0.lss) + 3 := (Nat.div_lt_iff_lt_mul hlpos).2 (by omega)
+  have hp : 16384 / t0.lss ≤ 32 := by rcases hl with h | h <;> simp [h]
+  unfold write at hw
+  simp only [hf.init, Bool.false_eq_true, if_false, hc, Bool.true_and, decide_eq_true_eq] at hw
+  have hph : (initTable t0 size).primaryHeader = 1 := by unfold initTable; simp only [hf.ph, if_true]
+  have hlss : (initTable t0 size).lss = t0.lss := by
+    unfold initTable; rcases hl with h | h <;> simp [h]
+  have hps : partSectors (initTable t0 size) = 16384 / t0.lss := by
+    unfold partSectors initTable
+    simp only [hf.ac, hf.es, if_true]
+    rcases hl with h | h <;> simp [h, u64, two64]
+  have hsh : (initTable t0 size).secondaryHeader = u64sub (size / t0.lss) 1 := by
+    unfold initTable
+    simp only [hf.sh, if_true]
+    have : u64 size = size := by simp only [u64, two64, two63] at *; omega
+    rw [this]
+    rcases hl with h | h <;> simp [h]
+  generalize initTable t0 size = ti at *
+  by_cases h0 : size / t0.lss = 0
+  · rw [h0] at hsh
+    have hv : ti.secondaryHeader = 18446744073709551615 := by rw [hsh]; decide
+    split at hw
+    · cases hw
+    · split at hw
+      · cases hw
+      · cases hw
+      · split at hw
+        · cases hw
+        · rename_i hneg
+          apply hneg
+          right; left
+          rw [hv, hlss]
+          rcases hl with h | h <;> rw [h] <;> decide
+  · have hv : ti.secondaryHeader = size / t0.lss - 1 := by
+      rw [hsh]
+      generalize size / t0.lss = q at *
+      have hq64 : q < two64 := by simp only [two64]; omega
+      unfold u64sub
+      rw [Nat.mod_eq_of_lt hq64, show (1 % two64) = 1 from rfl]
+      have e : q + two64 - 1 = (q - 1) + two64 := by omega
+      rw [e, Nat.add_mod_right, Nat.mod_eq_of_lt (by omega)]
+    rw [if_pos (by rw [hv, hph, hps]; omega)] at hw
+    cases hw
 
 end Diskfs.Gpt
